@@ -415,6 +415,26 @@ func (x *Exec) run() {
 		st.vars[v] = val
 		x.assumeWF(st, val)
 		x.initHandle(st, val, v.Name())
+		// a slice of slices: every row existing at entry is a well-formed slice over an array allocated before the call
+		if outer, ok := v.Type().Underlying().(*types.Slice); ok {
+			if _, ok := outer.Elem().Underlying().(*types.Slice); ok {
+				h := x.heap(st, sortSlice)
+				row := "(select (select " + h + " (s.ref " + val.T + ")) j)"
+				c.assumes = append(c.assumes, fmt.Sprintf("(forall ((j Int)) (! (and (<= 0 (s.ref %s)) (< (s.ref %s) %s) (<= 0 (s.off %s)) (<= 0 (s.len %s)) (<= (s.len %s) (s.cap %s))) :pattern (%s)))", row, row, x.alloc0, row, row, row, row, row))
+			}
+			// a slice of structs: the slice-typed fields of every element likewise
+			if su, ok := outer.Elem().Underlying().(*types.Struct); ok {
+				ssort := c.sortOf(outer.Elem())
+				h := x.heap(st, ssort)
+				el := "(select (select " + h + " (s.ref " + val.T + ")) j)"
+				for i := 0; i < su.NumFields(); i++ {
+					if _, isSl := su.Field(i).Type().Underlying().(*types.Slice); isSl {
+						f := "(" + c.fieldAcc(ssort, su.Field(i).Name()) + " " + el + ")"
+						c.assumes = append(c.assumes, fmt.Sprintf("(forall ((j Int)) (! (and (<= 0 (s.ref %s)) (< (s.ref %s) %s) (<= 0 (s.off %s)) (<= 0 (s.len %s)) (<= (s.len %s) (s.cap %s))) :pattern (%s)))", f, f, x.alloc0, f, f, f, f, el))
+					}
+				}
+			}
+		}
 	}
 	if fi.Sig.Recv() != nil {
 		bind(fi.Sig.Recv())
@@ -630,6 +650,7 @@ func (x *Exec) execRangeChan(n *ast.RangeStmt, ch Val, keyObj types.Object, st *
 	iname := fmt.Sprintf("range_i%d", ord)
 	names0 := map[string]Val{iname: {T: start, Ty: tInt}, "range_i": {T: start, Ty: tInt}, "range_n": {T: length, Ty: tInt}}
 	x.checkInvariants("init", ord, spec, st, pos, names0)
+	x.curLoopOrd = ord
 	h, lc := x.havocLoop(n.Body, nil, st, env, spec)
 	x.loopStack = append(x.loopStack, lc)
 	defer func() { x.loopStack = x.loopStack[:len(x.loopStack)-1] }()
@@ -693,7 +714,7 @@ func (x *Exec) execRangeMap(n *ast.RangeStmt, m Val, keyObj, valObj types.Object
 	mk := func(i string) map[string]Val {
 		return map[string]Val{iname: {T: i, Ty: tInt}, "range_i": {T: i, Ty: tInt}, "range_n": {T: length, Ty: tInt}}
 	}
-	x.baseFuncs = mergeNames(x.baseFuncs, map[string]Val{"mapkey": {T: enum}, "mapidx": {T: inv}})
+	x.baseFuncs = mergeNames(x.baseFuncs, map[string]Val{"mapkey": {T: enum, Ty: u.Key()}, "mapidx": {T: inv, Ty: u.Key()}})
 	x.checkInvariants("init", ord, spec, st, pos, mk("0"))
 	// the map itself must not be modified in the loop
 	vars, _, _, _ := x.assignedIn(n.Body, env.info)
@@ -702,6 +723,7 @@ func (x *Exec) execRangeMap(n *ast.RangeStmt, m Val, keyObj, valObj types.Object
 			panic(unsupported("map modified while ranging over it"))
 		}
 	}
+	x.curLoopOrd = ord
 	h, lc := x.havocLoop(n.Body, nil, st, env, spec)
 	x.loopStack = append(x.loopStack, lc)
 	defer func() { x.loopStack = x.loopStack[:len(x.loopStack)-1] }()
